@@ -290,6 +290,9 @@ def getBitSelect(obj:Logic, w:Wire, bit):
     return "{}[{}]".format(getParentWireName(obj, w), bit)
 
 def InlineSignExtend(obj:Logic):
+    if (obj.r.getWidth() <= obj.a.getWidth()):
+        # nothing to extend (a replication by zero or less is illegal), the assignment truncates
+        return "assign {} = {};\n".format(getParentWireName(obj, obj.r), getParentWireName(obj, obj.a))
     return "assign {} = {{ {{ {} {{ {} }} }}, {} }};\n".format(getParentWireName(obj, obj.r), obj.r.getWidth() - obj.a.getWidth(),  getBitSelect(obj, obj.a, obj.a.getWidth()-1), getParentWireName(obj, obj.a))
 
 def InlineZeroExtend(obj:Logic):
